@@ -42,17 +42,18 @@ prop('C03', ['K1', 'K3', 'K4', 'K5', 'K7', 'K8', 'M7', 'F1', 'F7', 'F10', 'T4'],
      'agree with the engine arms (T4).',
      ['equality of the produced lists for every input'])
 
-prop('C04', ['T5', 'N1', 'N2', 'F8', 'M4', 'K4'],
+prop('C04', ['T5', 'N1', 'N2', 'N3', 'F8', 'M4', 'K4'],
      'Paths and accessors, structural part: the path entry class per kind agrees between the '
      'engine, the Python registry literal and accessor.py (T5); flatten-with-path, PathsImpl, '
      'AccessorsImpl, Entries and Entry use the same entry per kind (index / key from the list that '
      'orders the children / node_entries[i]) and AccessorsImpl types each entry with the parent\'s '
      'type and kind (N1); the backwards walkers advance by the node count the recursive call '
-     'returned (N2); entry classes hash a subset of what they compare (F8); node copies keep '
+     'returned (N2); the typed entry classes resolve a positional entry in the name list the '
+     'children follow (N3); entry classes hash a subset of what they compare (F8); node copies keep '
      'node_entries (M4); the backwards walkers reverse their result (K4).',
      ['accessor(tree) is the leaf', 'prefix-freeness of paths', 'codify/eval agreement'])
 
-prop('C05', ['F1', 'F2', 'F3', 'F4', 'W2', 'K3', 'M7', 'P1'],
+prop('C05', ['F1', 'F2', 'F3', 'F4', 'W2', 'K3', 'M7', 'P1', 'P4'],
      'tree_map family, structural part: options forwarded unchanged (F1); the six map functions, '
      'three transpose-map and three broadcast-map functions are one normal form modulo the '
      'declared variation points, with the extra iterable first (F2); every rest is matched by an '
@@ -61,7 +62,7 @@ prop('C05', ['F1', 'F2', 'F3', 'F4', 'W2', 'K3', 'M7', 'P1'],
      'and func is used nowhere else (F4); traverse/walk call f_leaf in the leaf arm in traversal '
      'order and f_node once per node after its children were popped (W2); flatten_up_to uses the '
      'same kind arms and key pipeline as flatten (K3, M7) and pairs dict children of a rest with '
-     'the treespec\'s own keys (P1).',
+     'the treespec\'s own keys (P1); the broadcast variants pair dict children by key (P4).',
      ['argument identity', 'functor laws'])
 
 prop('C06', ['H1', 'H4', 'H2', 'H3'],
@@ -150,12 +151,13 @@ prop('C15', ['E1', 'E2', 'E3', 'E4', 'E5', 'E6', 'K7', 'I2', 'A5'],
      'call leaves its operands untouched (A5). Thorough tier: X1 across 4 CPython configurations.',
      ['reference-count equality after a fault at every k'], thorough_rules=['X1'])
 
-prop('C16', ['K8', 'K9', 'K9py', 'K7', 'I1', 'I2', 'I3', 'S3'],
+prop('C16', ['K8', 'K9', 'K9py', 'K7', 'I1', 'I2', 'I3', 'I4', 'S3'],
      'Memory safety / recursion, structural part: the three forward traversals share one depth '
      'discipline (K8); every recursive cycle of the engine call graph is bounded by '
      'MAX_RECURSION_DEPTH (K9) and Python-level recursion over tree depth is enumerated (K9py); no '
      'unchecked index into a list the user can shrink while user code runs in the loop (I1); '
-     'nullable C-API results are tested (I2); index guards (I3); unpickling validates what '
+     'nullable C-API results are tested (I2); index guards (I3); an index that is not a loop\'s '
+     'induction variable is range-tested before use (I4); unpickling validates what '
      'unchecked reads rely on (S3); malformed custom flatten results are rejected before use (K7). '
      'Thorough tier: the #if arms of the accessor wrappers agree across 4 CPython configurations (X1).',
      ['absence of all undefined behaviour'], thorough_rules=['X1'])
